@@ -459,8 +459,85 @@ func c08Callers(r *rt.Run) {
 	}
 }
 
+// c08Derived: one paragraph, as the reader produced it, is the base of several
+// derived paragraphs (base.Update(extra_i)); each derived paragraph, and the
+// base itself, is written - some of them twice - and read back: every one holds
+// the base's fields followed by its own extra fields, whatever was derived or
+// written before.
+func c08Derived(r *rt.Run) {
+	t := r.T
+	m, doc, _ := genDoc(t, docGenOpts{MinParas: 1, MaxParas: 1, MaxFields: 5, NoTrailingBlanksOnLines: true}, r)
+	got, err, task := readParas(r, doc)
+	if taskTrouble(r, "C08", "read0", task) || err != nil || len(got) != 1 {
+		return
+	}
+	base := got[0]
+	baseOrder := append([]string{}, base.Order...)
+	_ = m
+	n := 2 + t.Draw(3, "c08.derived.n")
+	derived := make([]control.Paragraph, n)
+	extras := make([][]string, n)
+	for i := range derived {
+		x := control.Paragraph{Values: map[string]string{}}
+		for j, k := 0, 1+t.Draw(2, "c08.derived.k"); j < k; j++ {
+			name := fmt.Sprintf("X-Extra-%d-%d", i, j)
+			x.Set(name, fmt.Sprintf("extra value %d %d", i, j))
+			extras[i] = append(extras[i], name)
+		}
+		derived[i] = base.Update(x)
+	}
+	r.Probe("several-paragraphs-derived-from-one-base")
+	check := func(tag string, p *control.Paragraph, wantOrder []string) bool {
+		w := simio.NewWriter(r, "sink")
+		var werr error
+		task := r.Solo("writer", func() { werr = p.WriteTo(w) })
+		if taskTrouble(r, "C08", "derived/"+tag, task) {
+			return false
+		}
+		if werr != nil {
+			r.Violate("C08/write-error", "derived", "%s: %v", tag, werr)
+			return false
+		}
+		back, rerr, task := readParas(r, w.Buf)
+		if taskTrouble(r, "C08", "derived/"+tag, task) {
+			return false
+		}
+		if rerr != nil || len(back) != 1 {
+			r.Violate("C08/reread-error", "derived-paragraph", "%s: reading back failed: err=%v paragraphs=%d\nwritten=%q", tag, rerr, len(back), clip(string(w.Buf), 300))
+			return false
+		}
+		if fmt.Sprint(back[0].Order) != fmt.Sprint(wantOrder) {
+			r.Violate("C08/roundtrip-mismatch", "derived-paragraph/fields", "%s reads back with fields %v, want %v\nwritten=%q", tag, back[0].Order, wantOrder, clip(string(w.Buf), 300))
+			return false
+		}
+		for _, k := range wantOrder {
+			if strings.HasPrefix(k, "X-Extra-") && strings.TrimSpace(back[0].Values[k]) != "extra value "+strings.ReplaceAll(strings.TrimPrefix(k, "X-Extra-"), "-", " ") {
+				r.Violate("C08/roundtrip-mismatch", "derived-paragraph/value", "%s: field %s reads back as %q", tag, k, back[0].Values[k])
+				return false
+			}
+		}
+		return true
+	}
+	order := t.Perm(n, "c08.derived.order")
+	for _, i := range order {
+		want := append(append([]string{}, baseOrder...), extras[i]...)
+		if !check(fmt.Sprintf("derived paragraph %d of %d", i, n), &derived[i], want) {
+			return
+		}
+		if t.Bool(1, 2, "c08.derived.twice") && !check(fmt.Sprintf("derived paragraph %d of %d (second write)", i, n), &derived[i], want) {
+			return
+		}
+	}
+	check("the base paragraph after its derivations were written", &base, baseOrder)
+}
+
 func runC08(r *rt.Run, tier string) {
 	t := r.T
+	if t.Bool(1, 10, "c08.part-derived") {
+		r.Stats["part.derived"]++
+		c08Derived(r)
+		return
+	}
 	if t.Bool(1, 6, "c08.part-callers") {
 		r.Stats["part.callers"]++
 		c08Callers(r)
@@ -742,5 +819,5 @@ func init() {
 		},
 		Assumptions: []string{"values are compared after removing one trailing newline (the statement's equality) and, for values built with the library's leading-newline multi-line marker, the marker", "lines that are exactly '.', blanks around a first line, and field names with ':' or leading '#' are outside the text format and not generated"},
 	})
-	propProbes["C08"] = []string{"paragraph-built-with-Set", "paragraph-built-with-Update", "several-callers-writing-at-the-same-time", "stores-read-back-by-readers-alive-at-the-same-time", "line-longer-than-4096-bytes", "transient-read-fault-while-reading-back", "encode-retried-after-transient-write-error", "encoder-mixes-structs-and-slices", "single-line-with-trailing-newline", "multi-line-with-trailing-newline", "two-empty-lines", "three-empty-lines", "four-empty-lines", "leading-marker", "three-or-more-paragraphs", "three-or-more-cycles"}
+	propProbes["C08"] = []string{"several-paragraphs-derived-from-one-base", "paragraph-built-with-Set", "paragraph-built-with-Update", "several-callers-writing-at-the-same-time", "stores-read-back-by-readers-alive-at-the-same-time", "line-longer-than-4096-bytes", "transient-read-fault-while-reading-back", "encode-retried-after-transient-write-error", "encoder-mixes-structs-and-slices", "single-line-with-trailing-newline", "multi-line-with-trailing-newline", "two-empty-lines", "three-empty-lines", "four-empty-lines", "leading-marker", "three-or-more-paragraphs", "three-or-more-cycles"}
 }
